@@ -126,6 +126,16 @@ def run(tier, seed, replay=None):
                        {"op": "OPEN_DIR", "path": "/dir"}, {"op": "READ_DIR_ENTRY"}, {"op": "OPEN_DIR", "path": "/t"}, {"op": "READ_DIR"}]
             conns.append({"id": 9, "reqs": probes})
             worlds.append({"name": "shape-%s" % shape, "aw": False, "nodes": nodes, "conns": conns})
+        # links to ancestors (a directory reachable from inside itself): every request is answered, sizes stay finite
+        t1 = t0 + 500
+        nodes = [srv.dnode(["d"], t1), srv.fnode(["d", "f.bin"], 10, cid="lp_f", mtime=t1 + 1), srv.lnode(["d", "self"], ["d"]), srv.lnode(["d", "self2"], ["d"]),
+                 srv.lnode(["d", "up"], []), srv.dnode(["d", "sub"], t1 + 2), srv.fnode(["d", "sub", "g.bin"], 7, cid="lp_g", mtime=t1 + 3),
+                 srv.lnode(["d", "sub", "back"], ["d"]), srv.lnode(["d", "sub", "side"], ["e"]), srv.dnode(["e"], t1 + 4),
+                 srv.fnode(["e", "h.bin"], 5, cid="lp_h", mtime=t1 + 5), srv.lnode(["e", "tod"], ["d", "sub"])]
+        reqs = []
+        for pth in ("/d", "/", "/d/sub", "/e", "/d/self", "/d/sub/back/sub", "/d/up/e"):
+            reqs += [{"op": "GET_DIR_SIZE", "path": pth}, {"op": "STAT_FILE", "path": pth}, {"op": "OPEN_DIR", "path": pth}, {"op": "READ_DIR"}]
+        worlds.append({"name": "ancestor-links", "aw": False, "nodes": nodes, "conns": [{"id": 1, "reqs": reqs}], "probe": True})
         # listing through a symlinked directory and of the root; nested trees
         for i in range(6 if not full else 40):
             nodes = srv.basic_world(rng)
